@@ -13,7 +13,7 @@ use std::collections::BTreeMap;
 use std::str::FromStr;
 use std::sync::Arc;
 
-use hickory_net::xfer::Protocol;
+pub use hickory_net::xfer::Protocol;
 use hickory_proto::op::update_message::UpdateMessage;
 use hickory_proto::op::{Message, MessageType, OpCode, Query};
 use hickory_proto::rr::rdata::tsig::TsigAlgorithm;
@@ -30,6 +30,7 @@ use vsim::SimProvider;
 pub use vref::update::Rr;
 
 pub mod kinds;
+pub mod raw;
 
 pub const ORIGIN: &str = "z.";
 /// Virtual wall clock used by the update checks (vsim's default).
@@ -435,11 +436,16 @@ pub struct EnvOpts {
     pub axfr: AxfrPolicy,
     pub allow_update: bool,
     pub journal: bool,
+    /// the zone type of the in-memory handler inside (Primary unless a check varies it)
+    pub zone_type: ZoneType,
+    /// the AXFR policy of the in-memory handler INSIDE the sqlite handler (`try_from_config`
+    /// always builds it with AllowAll; the constructor lets it be anything)
+    pub inner_axfr: AxfrPolicy,
 }
 
 impl Default for EnvOpts {
     fn default() -> Self {
-        EnvOpts { signers: vec![signer1()], axfr: AxfrPolicy::AllowAll, allow_update: true, journal: false }
+        EnvOpts { signers: vec![signer1()], axfr: AxfrPolicy::AllowAll, allow_update: true, journal: false, zone_type: ZoneType::Primary, inner_axfr: AxfrPolicy::AllowAll }
     }
 }
 
@@ -456,8 +462,12 @@ pub fn new_journal() -> Journal {
 
 /// The in-memory zone the real loader path (`upsert_mut`) makes of `zone`.
 pub fn in_memory_zone(zone: &[Rr]) -> InMemoryZoneHandler<SimProvider> {
+    in_memory_zone_with(zone, ZoneType::Primary, AxfrPolicy::AllowAll)
+}
+
+pub fn in_memory_zone_with(zone: &[Rr], zone_type: ZoneType, inner_axfr: AxfrPolicy) -> InMemoryZoneHandler<SimProvider> {
     let serial = zone.iter().find(|r| r.rtype == ru::T_SOA).and_then(|r| ru::soa_serial(&r.rdata)).unwrap_or(0);
-    let mut z = InMemoryZoneHandler::<SimProvider>::empty(hname(ORIGIN), ZoneType::Primary, AxfrPolicy::AllowAll, None);
+    let mut z = InMemoryZoneHandler::<SimProvider>::empty(hname(ORIGIN), zone_type, inner_axfr, None);
     for rr in zone {
         z.upsert_mut(to_record(rr), serial);
     }
@@ -472,7 +482,7 @@ impl Env {
     /// A handler for `zone` (loaded through `upsert_mut`); with `opts.journal` an in-memory
     /// journal is attached and the zone persisted into it (what `try_from_config` does).
     pub async fn new(zone: &[Rr], opts: EnvOpts) -> Env {
-        let mut h = Handler::new(in_memory_zone(zone), opts.axfr, opts.allow_update, false);
+        let mut h = Handler::new(in_memory_zone_with(zone, opts.zone_type, opts.inner_axfr), opts.axfr, opts.allow_update, false);
         h.set_tsig_signers(opts.signers.clone());
         if opts.journal {
             h.set_journal(new_journal()).await;
@@ -507,7 +517,12 @@ impl Env {
 
     /// Send and expect exactly one parseable reply.
     pub async fn exchange(&self, bytes: &[u8]) -> Result<Reply, String> {
-        match self.send(bytes).await {
+        self.exchange_via(bytes, Protocol::Tcp).await
+    }
+
+    /// `exchange` over the given transport.
+    pub async fn exchange_via(&self, bytes: &[u8], proto: Protocol) -> Result<Reply, String> {
+        match vsim::serve(&self.catalog, bytes, proto).await {
             None => Err("request bytes rejected by Request::from_bytes".into()),
             Some(v) if v.len() != 1 => Err(format!("{} reply messages", v.len())),
             Some(v) => parse_reply(&v[0]).ok_or_else(|| "reply not walkable".to_string()),
